@@ -39,6 +39,14 @@ func (fr *Frame) execCall(ins ssa.Instruction, cc *ssa.CallCommon, result ssa.Va
 	if cc.IsInvoke() {
 		recv := fr.val(cc.Value)
 		fr.safety("nil-deref", ins, ex.nnAny(recv.T, cc.Value.Type()), "invoke "+cc.Method.Name()+" on "+cc.Value.Name())
+		// the dynamic type is evident (the interface value was boxed from a concrete package type on every
+		// path): call the method itself, so that its own contract applies rather than the interface's
+		if recv.Dyn != nil && len(recv.Elems) == 1 && recv.Elems[0] != nil {
+			if m := ex.prog.LookupMethod(recv.Dyn, cc.Method.Pkg(), cc.Method.Name()); m != nil && m.Pkg == ex.pkg && len(m.Blocks) > 0 && m.Synthetic == "" {
+				bind(fr.callStatic(ins, m, append([]*Val{recv.Elems[0]}, args...), nil, resSort))
+				return
+			}
+		}
 		bind(fr.invoke(ins, cc, recv, args, resSort))
 		return
 	}
@@ -229,6 +237,11 @@ func (fr *Frame) havocCallee(callee *ssa.Function, argVals ...ssa.Value) {
 
 func (fr *Frame) callStatic(ins ssa.Instruction, callee *ssa.Function, args []*Val, bindings []*Val, resSort *Sort) *Val {
 	ex := fr.ex
+	for k, a := range args {
+		if a != nil && a.Borrow != nil {
+			fr.useBytes(ins, a, fmt.Sprintf("argument %d of %s", k, callee.Name()))
+		}
+	}
 	if ex.safety && callee.Pkg == ex.pkg && len(callee.Blocks) > 0 {
 		// pointer-to-struct arguments (receiver included) must be non-nil: callees assume it
 		for k, a := range args {
@@ -362,6 +375,16 @@ func (fr *Frame) applyContract(ins ssa.Instruction, c *Contract, key string, cal
 	// reference results are allocated
 	fr.assumeResultsAllocated(res)
 	fr.assumeResultsWF(sig, res)
+	if c.BorrowedResult != "" {
+		if rv, ok := env.vars[c.BorrowedResult]; ok {
+			target := res
+			if res.Tup != nil && len(res.Tup) > 0 {
+				target = res.Tup[0]
+			}
+			re := ex.get(fr.cur, fr.ghost("RE"))
+			target.Borrow = &Borrow{Active: "true", Reader: rv.T, Epoch: "(select " + re + " " + rv.T + ")"}
+		}
+	}
 	return res
 }
 
@@ -540,6 +563,8 @@ func (fr *Frame) builtin(ins ssa.Instruction, b *ssa.Builtin, cc *ssa.CallCommon
 		return &Val{T: n, S: SInt}
 	case "append":
 		x, y := args[0], args[1]
+		fr.useBytes(ins, x, "append (destination)")
+		fr.useBytes(ins, y, "append (source)")
 		if x.S.K == KString {
 			return &Val{T: vc.define("append", SString, "(str.++ "+x.T+" "+y.T+")"), S: SString}
 		}
